@@ -235,6 +235,12 @@ class SeqRun:
             return self._run(start, ops, backend, root, held, failed)
         except (lg.HarnessError, SystemExit):
             raise
+        except lg.ExecTimeout:
+            from jug.hooks.register import reset_all_hooks
+            reset_all_hooks()
+            self.viol('jug execute did not finish within %d s' % lg.EXEC_TIME_LIMIT,
+                      start=[[h, v] for h, v in start], backend=backend, ops=list(ops), held=list(held), failed=list(failed))
+            return None
         except Exception as e:                     # raised by the code under test outside the step itself
             from jug.hooks.register import reset_all_hooks
             reset_all_hooks()
@@ -287,6 +293,11 @@ class SeqRun:
                     self.builder_oracle(r['marks'], before, ctx)
             except SystemExit:
                 self.viol('the jugfile failed to load', **ctx)
+                return None
+            except lg.ExecTimeout:
+                from jug.hooks.register import reset_all_hooks
+                reset_all_hooks()
+                self.viol('jug execute did not finish within %d s' % lg.EXEC_TIME_LIMIT, **ctx)
                 return None
             except lg.HarnessError:
                 raise
